@@ -8,12 +8,12 @@ from ..gen import c12_source as _BOX                      # translated BODIES of
 
 
 def translate():
-    return _translate_exprs() + _BOX.translate() + _BOX.translate_maths() + _BOX.translate_prims() + _BOX.translate_writes()
+    return _translate_exprs() + _BOX.translate() + _BOX.translate_maths() + _BOX.translate_prims() + _BOX.translate_writes() + _BOX.translate_vec()
 
 
 PID = "C12"
 TITLE = "Geometric primitives and boxes obey their algebra, with no side effects"
-LEAN_MODULES = ["Mouette.Props.C12", "Mouette.Props.C12R", "Mouette.Props.C12G", "Mouette.Props.C12T", "Mouette.Props.C12H", "Mouette.Props.C12S", "Mouette.Props.C12M"]
+LEAN_MODULES = ["Mouette.Props.C12", "Mouette.Props.C12R", "Mouette.Props.C12G", "Mouette.Props.C12T", "Mouette.Props.C12H", "Mouette.Props.C12S", "Mouette.Props.C12M", "Mouette.Props.C12V"]
 REQUIRED_THEOREMS = [
     "project_in_box", "project_realises_l1", "project_realises_linf", "project_realises_l2", "contained_dist_zero",
     "union_contains", "inter_is_overlap", "doIntersect_iff_overlap", "ofPoints_contains", "ofPoints_tight",
@@ -48,6 +48,10 @@ REQUIRED_THEOREMS = [
     "gen_parallel_relative", "gen_parallel_test", "parallel2_scale_invariant", "parallel2_of_det_zero", "intersect2_on_both_lines",
     # frame conditions read off the source (Generated/C12W.lean): write sets reaching arguments, numpy.seterr calls
     "source_write_sets", "source_write_sets_cover", "source_no_seterr",
+    # round 5 (Props/C12V.lean): bodies of Vec.* and of norm / dot / distance / cotan / face_basis (Generated/C12Vec.lean)
+    "normG_box", "vecNorm_eq_normG", "dot_bridge", "distance_bridge", "normalized_bridge", "normalized_frame", "normalize_frame",
+    "cotan_bridge", "cotan_source_reciprocal_tan", "faceBasis_orthogonal", "faceBasis_normal_is_circumcenter_axis", "vec_new_is_view",
+    "accessor_table",
 ]
 
 # Which function of the anchor files is tied to the model how.  "translated": a definition of Generated/C12*.lean is emitted from
@@ -68,12 +72,14 @@ SOURCE_MAP = {
     _G + "sign0": "translated", _G + "project_to_plane": "translated", _G + "intersect_2lines2D": "translated",
     _G + "distance_to_segment2D": "translated", _G + "triangle_area_2D": "translated", _G + "angle_3pts": "translated",
     _G + "signed_angle_2vec3D": "translated",                                                        # Generated/C12Prim.lean, C12M
-    _G + "norm": "modelled",            # Box.normL1 / normLinf / normL2sq (l2 squared), BoxS.normOf
-    _G + "dot": "modelled",             # V2.dot / V3.dot of Model/Prim.lean (np.dot)
-    _G + "distance": "modelled",        # squared norm of the difference
-    _G + "cotan": "modelled",           # Prim.cotanPair (the code normalises first: cotanPair_scale)
-    _G + "circumcenter": "modelled",    # Prim.circumcenter (closed form; the code goes through face_basis and intersect_2lines2D)
-    _G + "face_basis": "oracle-only",   # reached through circumcenter only
+    _G + "norm": "translated",            # Box.normL1 / normLinf / normL2sq (l2 squared), BoxS.normOf
+    _G + "dot": "translated",             # V2.dot / V3.dot of Model/Prim.lean (np.dot)
+    _G + "distance": "translated",        # squared norm of the difference
+    _G + "cotan": "translated",           # Prim.cotanPair (the code normalises first: cotanPair_scale)
+    _G + "circumcenter": "modelled",    # Prim.circumcenter (closed form); the two functions it goes through, face_basis and intersect_2lines2D, are translated
+                                        # (faceBasis_orthogonal, faceBasis_normal_is_circumcenter_axis, intersect2_on_both_lines); its own body mixes three different
+                                        # normalisation factors per component and is tied by the correspondence + the equidistance oracle (all scales)
+    _G + "face_basis": "translated",   # reached through circumcenter only
     _G + "sign": "out-of-scope: not used by a clause of the statement",
     _G + "signed_angle_3pts": "out-of-scope: thin wrapper of signed_angle_2vec3D, not exercised",
     _G + "angle_2vec2D": "out-of-scope: not in the statement", _G + "angle_2vec3D": "out-of-scope: not in the statement",
@@ -82,11 +88,11 @@ SOURCE_MAP = {
     "mouette/geometry/rotations.py::rotate_2d": "translated", "mouette/geometry/rotations.py::rotate_around_axis": "translated",
     "mouette/geometry/rotations.py::axis_rot_from_z": "out-of-scope: not in the statement",
     "mouette/geometry/rotations.py::match_rotation": "out-of-scope: scipy Rotation groups, not in the statement",
-    _V + "__new__": "modelled",          # heap model of Model/BoxHist.lean: Vec(x) is a view of an ndarray, a copy of a list/tuple
-    _V + "normalized": "modelled",       # normalizedRepaired (numpy error state restored on return and on raise)
-    _V + "normalize": "oracle-only",     # documented to modify its own object; monitored for other effects
-    _V + "norm": "modelled", _V + "dot": "modelled",
-    _V + "x": "modelled", _V + "y": "modelled", _V + "z": "modelled",      # component access (getters); setters are used by rotate_* only
+    _V + "__new__": "translated",          # heap model of Model/BoxHist.lean: Vec(x) is a view of an ndarray, a copy of a list/tuple
+    _V + "normalized": "translated",       # normalizedRepaired (numpy error state restored on return and on raise)
+    _V + "normalize": "translated",     # documented to modify its own object; monitored for other effects
+    _V + "norm": "translated", _V + "dot": "translated",       # Generated/C12Vec.lean (vecNorm_eq_normG, dot_bridge)
+    _V + "x": "translated", _V + "y": "translated", _V + "z": "translated",      # component access (getters); setters are used by rotate_* only
     _V + "xy": "out-of-scope: accessor not used by the anchored functions",
     _V + "outer": "out-of-scope: not in the statement", _V + "from_complex": "out-of-scope: constructor not used by the anchored functions",
     _V + "random": "out-of-scope: random constructor", _V + "zeros": "out-of-scope: constructor not used by the anchored functions",
@@ -548,7 +554,17 @@ def _run_prim(case, want_oracle):
         return o_
     obs = None
     try:
-        if f in ("cross", "det2", "det3", "area2", "isect", "pplane", "dseg", "angle3", "sangle", "circ", "cotan"):
+        if f == "nrmz":
+            # Vec.normalize(which): documented to modify ITS OWN object; watched: a second array with the same values, numpy.geterr()
+            vals = [float(Fraction(c)) for c in A[0]]
+            v = Vec(list(vals))                       # a fresh array (Vec of a list copies): nothing of the caller is aliased
+            twin = np.array(vals, dtype=float)
+            mon.watched.append(("twin", twin))
+            own = []
+            _arrays_in(v, own)
+            how, out = mon.call("Vec.normalize", Vec.normalize, (v, A[1]), may_modify=tuple(own))
+            obs = _map_exc(out) if how == "raise" else "ok"
+        elif f in ("cross", "det2", "det3", "area2", "isect", "pplane", "dseg", "angle3", "sangle", "circ", "cotan"):
             n = {"cross": 2, "det2": 2, "det3": 3, "area2": 3, "isect": 4, "pplane": 3, "dseg": 3, "angle3": 3, "sangle": 3, "circ": 3, "cotan": 3}[f]
             vs = [vec(i) for i in range(n)]
             ex = [_fv(A[i]) for i in range(n)]
@@ -634,6 +650,10 @@ def _run_prim(case, want_oracle):
                     t = math.tan(ang)
                     if abs(t) > 1e-6 and abs(float(out)) > 1e-6 and abs(float(out) * t - 1) > 1e-6:
                         law("cotan/reciprocal-tangent", "cotan(A,B,C) is not 1/tan(angle_3pts(A,B,C))", f"{float(out)} vs {1/t}")
+                elif want_oracle and _well_shaped([ex[1], ex[0], ex[2]], Fraction(1, 10000)):
+                    # round 5: a non-finite cotangent although the angle at B is far from 0 and pi (exact test: sin^2 >= 1e-4), where
+                    # 1/tan(angle) is a finite number: the clause fails (before, a non-finite value was taken for a degenerate input)
+                    law("cotan/reciprocal-tangent", "cotan(A,B,C) is not 1/tan(angle_3pts(A,B,C))", f"{float(out)} for an angle whose sin^2 >= 1e-4")
         elif f in ("rot2", "rotax"):
             v = vec(0); ang = float(Fraction(A[-1]))
             if f == "rot2":
@@ -783,6 +803,7 @@ def _parse_vec(tok_list):
 def _num(t):
     if t == "+inf": return math.inf
     if t == "-inf": return -math.inf
+    if t == "nan": return math.nan          # never close to anything: a NaN result is a mismatch / a failed law, not a harness error
     return float(Fraction(t))
 
 
@@ -1002,6 +1023,8 @@ _SCALES = [-23, -20, -14, -7, 0, 0, 7, 14, 20]
 
 def _gen_prim(rng):
     scale = None
+    if rng.random() < 0.03:
+        return {"t": "prim", "f": "nrmz", "args": [_v(rng, rng.choice([2, 3, 3, 4])), rng.choice(["l2", "l2", "l1", "linf"])]}
     f = rng.choice(["cross", "det2", "det3", "rot2", "rotax", "circ", "isect", "pplane", "dseg", "area2", "angle3", "sangle", "cotan",
                     "pangle", "adiff", "roots", "circ", "rotax", "sangle", "pangleT", "adiffT", "rootsT", "pangleT", "adiffT", "rootsT"])
     if f in ("cross",): args = [_v(rng, 3), _v(rng, 3)]
